@@ -62,7 +62,7 @@ structure DemuxCfg where
 def ReaderKind.name : ReaderKind → String
   | .seek => "seek" | .bufio => "bufio" | .plain => "plain" | .bufioSmall => "bufio64"
 def ParserKind.name : ParserKind → String
-  | .none => "none" | .observer => "observer" | .replacer => "replacer" | .failing => "failing"
+  | .none => "none" | .observer => "observer" | .replacer => "replacer" | .failing => "failing" | .dropper => "dropper"
 
 def mkDemux (bs : Bytes) (c : DemuxCfg) : Demux :=
   { r := { data := bs, kind := c.kind, faultAt := c.fault.map (·.1), faultOnce := (c.fault.map (·.2)).getD true },
